@@ -50,6 +50,29 @@ type TMStr string
 
 func (t TMStr) MarshalText() ([]byte, error) { return []byte("tm:" + string(t)), nil }
 
+// less common element / slice shapes
+type NBytes []byte // named byte slice
+
+// TMU8 is a named uint8 with a value-receiver MarshalText.
+type TMU8 uint8
+
+func (t TMU8) MarshalText() ([]byte, error) { return []byte(fmt.Sprintf("c%d", uint8(t))), nil }
+
+// TMU8P is a named uint8 whose MarshalText has a pointer receiver.
+type TMU8P uint8
+
+func (t *TMU8P) MarshalText() ([]byte, error) { return []byte(fmt.Sprintf("p%d", uint8(*t))), nil }
+
+// TMList is a named slice that marshals itself as text.
+type TMList []int32
+
+func (t TMList) MarshalText() ([]byte, error) { return []byte(fmt.Sprintf("list-of-%d", len(t))), nil }
+
+// JSList is a named slice with its own MarshalJSON.
+type JSList []string
+
+func (t JSList) MarshalJSON() ([]byte, error) { return []byte(fmt.Sprintf(`{"n":%d}`, len(t))), nil }
+
 // text unmarshaler (args only)
 type TUnm struct{ S string }
 
